@@ -52,9 +52,9 @@ CLAIMS = {
         text='Kernel only: proof, for every operand tag combination and every operand value (all 2^64 bit patterns per operand), that the BinaryExpression / UnaryExpression / LiteralExpression branches of eval follow the '
              'documented semantics: result tag float if any float, else long if any long, else int; + - * on the promoted operands; / always float with a located error on a zero divisor; integer % with a located error on zero; '
              'comparisons on the promoted pair; && || ! on boolean/bit; & | ^ ~ on bits and element-wise on equal-length bit arrays (ghost element index, loop invariants) with a located error on a length mismatch; unary minus keeps the tag; '
-             'literal tag follows the literal type, string/char payloads are the quoted text. Store site (unit SCOPE, clause assign.int_stored_in_a_long_variable_is_widened): an int assigned to a variable that holds a long must leave a long there - this obligation FAILS on this code base and is a KNOWN-FINDING (the variable keeps the int tag and the next `y + 1` wraps at 32 bits; native replay).',
+             'literal tag follows the literal type, string/char payloads are the quoted text. Control flow (unit OBJM, regions exec_block / exec_for / exec_while): once a nested statement has returned, nothing more of the block or loop runs - no further statement, increment or condition (ghost count of what runs while a return is pending). Arrays (unit ASTORE, the whole element-store branch of eval): a[i] = v with any int index is a located Runtime error outside the array and otherwise writes the variable once, keeps the length and every other element (ghost element) and stores the converted value. Store site (unit SCOPE, clause assign.int_stored_in_a_long_variable_is_widened): an int assigned to a variable that holds a long must leave a long there - this obligation FAILS on this code base and is a KNOWN-FINDING (the variable keeps the int tag and the next `y + 1` wraps at 32 bits; native replay).',
         note=TB + 'Regions are addressed structurally in the real eval; operand evaluation (recursive eval) is an assumed stub. Double arithmetic and the VALUE of integer * / % are uninterpreted functions (code and specification are built '
-             'from the same symbols; bitwise equality); 32/64-bit + and - are specified modulo 2^n. NOT covered: the other store sites that share the known finding (declaration with initialiser, member assignment, parameter binding, return values, field initialisers), casts, postfix ++/--, index bounds, string concatenation/formatting (valueToString is opaque), control flow, calls, '
+             'from the same symbols; bitwise equality); 32/64-bit + and - are specified modulo 2^n. NOT covered: the other store sites that share the known finding (declaration with initialiser, member assignment, parameter binding, return values, field initialisers), casts, postfix ++/--, index bounds on READS, string concatenation/formatting (valueToString is opaque), control flow, calls, '
              'scoping, arrays with value semantics, echo - i.e. everything the property says about whole programs beyond these three branches.',
         ref='DESIGN.md §4 C07'),
     'C08': dict(
@@ -86,9 +86,9 @@ CLAIMS = {
         note=TB + 'The analyser tables are ghost state observed at one arbitrary name; typeFromAst is uninterpreted. NOT covered: that the call-site checks read only that table; the rest of the class half (member registration order inside buildClassRegistry, instantiateGeneric); module merge order. CTAB assumes class declarations as the parser builds them and an acyclic hierarchy (rank witness; cycles are rejected by the analyser, unit CYC).',
         ref='DESIGN.md §4 C10'),
     'C12': dict(
-        text='Kernel only: (a) every lowered unit (SIM, LEX, UPD, QBK, ARITH, PTAB) carries CBMC bounds / pointer / division / shift obligations on every harness: for any input satisfying the stated invariants those functions never index out of range; '
+        text='Kernel only: (a) every lowered unit (all of them: the harnesses of every unit are registered for C12 as well) carries CBMC bounds / pointer / division / shift obligations on every harness: for any input satisfying the stated invariants those functions never index out of range; '
              '(b) the arithmetic branches of eval can only end in a value or a located Runtime error: explicit no-trap obligations on every signed / and % (INT_MIN / -1, x / 0), no raw C++ exception from literal conversion '
-             '(std::stoi / stoll / stof modelled as possibly failing on long text), nor from the lexer (string_view::substr), the version parser or the qubit bookkeeping.',
+             '(std::stoi / stoll / stof modelled as possibly failing on long text), nor from the lexer (string_view::substr), the version parser or the qubit bookkeeping; (c) element stores a[i] = v (unit ASTORE): every access to the element vector is inside it for ANY int index - a negative or too large index computed at run time is a located Runtime error.',
         note=TB + 'NOT covered (stated so nobody reads a green check as covering it): container / lifetime behaviour that the lowering abstracts away - vtable pointers into a growing std::vector, teardown order after an error with a live '
              'qubit-owning object (a confirmed SIGSEGV, design_probes/repro/C12_runtime_error_with_live_object_segv.bloch), recursion depth, null references, the class system. Signed + - * overflow is treated as wrapping (no trap).',
         ref='DESIGN.md §4 C12'),
@@ -104,8 +104,8 @@ CLAIMS = {
              'exactly the documented operators have a binding, binary levels are left-associative (lbp < rbp), a tighter operator on the right is absorbed by the right operand and an equal or looser one ends it, '
              'operators of one level share one binding, every binary operator binds looser than prefix operators and every postfix form binds at least as tight. '
              '(b) the annotation prefix (unit PANN): the token cursor (advance, expect, check, ...) never leaves the token vector, and parseVariableAnnotation / parseFunctionAnnotation / parseAnnotations accept exactly `@ tracked`, `@ quantum` and `@ shots ( int )` '
-             '(node kind, name and value as in the tokens, cursor just after the annotation; loop contract over the annotation list) and answer anything else after `@` with one Parse error at the offending token; the declaration look-ahead isTypeAhead (and its generic-argument skipper) never leaves the token vector, terminates (three loop contracts with decreases clauses), does not move the cursor, and says yes for a primitive type keyword or `Name Name` and no for anything that is neither a type keyword nor an identifier.',
-        note=TB + 'The claim is limited to the table, the prefix constant and the annotation prefix (token vectors of up to 8 tokens, up to 4 annotations: object-size bounds; the lexer-delivered shape of the vector - one Eof, at the end - is a precondition proved in unit LEX). '
+             '(node kind, name and value as in the tokens, cursor just after the annotation; loop contract over the annotation list) and answer anything else after `@` with one Parse error at the offending token; the declaration look-ahead isTypeAhead (and its generic-argument skipper) never leaves the token vector, terminates (three loop contracts with decreases clauses), does not move the cursor, and says yes for a primitive type keyword or `Name Name` and no for anything that is neither a type keyword nor an identifier. (c) assignmentExpression = logicalOr [ "=" assignmentExpression ]: parseAssignmentExpression parses its left operand as a full Pratt expression and, after an `=`, its right operand by recursion from the token after the `=` - right associative (region parseAssignmentExpression_head; the two operand parsers are ghost-recording models).',
+        note=TB + 'The claim is limited to the table, the prefix constant, the annotation prefix and the operand structure of assignment expressions (token vectors of up to 8 tokens, up to 4 annotations: object-size bounds; the lexer-delivered shape of the vector - one Eof, at the end - is a precondition proved in unit LEX). '
              'That parsePrattExpression applies the table as a Pratt loop should, statement and class-member dispatch, the type-ahead heuristic and the render-then-parse round trip are NOT under contract (recursive descent over unique_ptr trees is outside the lowering). '
              'CaDiCaL is the back end of the parseAnnotations harness (MiniSat needs 5 minutes for it).',
         ref='DESIGN.md §4 C14'),
